@@ -24,3 +24,42 @@ prop('C01', units=['bk'], level='proof',
      level_note='Assumes exact Decimal arithmetic, the shim contracts for rust_decimal/time/std, Verus+Z3; CSV parsing and rendering are outside.',
      not_covered=['<=1e-9 rounding clause (model E)', 'CSV text -> CsvTx parsing', 'rendering of figures into table cells'],
      witnesses=[])
+
+BK_NOTE = ('Assumes exact Decimal arithmetic (model E), the shim contracts for rust_decimal/time/std collections, '
+           'Affiliate interning, Verus+Z3. CSV parsing, option handling and rendering are outside the verified units.')
+
+prop('C02', units=['bk'], level='proof',
+     technique='Verus contracts: both window scans of get_superficial_loss_info against fold specs, ratio = min(sold, acquired, held)/sold, cent rounding rule, declared-amount validation',
+     level_text='Deductive proof (Verus) for all transaction lists: window ends (30 days, inclusive), split-adjusted acquired/held counts, ratio, denied amount and reported gain of a sale are those of the statement.',
+     level_note=BK_NOTE,
+     not_covered=['parsing of the `superficial loss` CSV cell (string code)', 'rounding of * and / to 28 digits (model E)'],
+     witnesses=[])
+
+prop('C03', units=['bk'], level='proof',
+     technique='Verus: per-step conservation lemma + induction over the ledger (theorem_conservation) + postcondition tot_denied == 0 of the real driver loop',
+     level_text='Deductive proof (Verus): lemmas over the step contract give the conservation identity for ledgers of any length; the driver txs_to_delta_list is proved to hand every denied loss back (ghost counter of generated adjustment rows).',
+     level_note=BK_NOTE,
+     not_covered=['identity is proved in exact arithmetic; accumulated Decimal rounding is not modelled'],
+     witnesses=[])
+
+prop('C04', units=['bk'], level='proof',
+     technique='Verus: type invariant of ConstrainedDecimal (>= 0), sum invariant wf() of the affiliate status table, delta_for_tx Err <==> step_reject, prefix invariant of the driver; witnesses for message visibility',
+     level_text='Deductive proof (Verus) of non-negativity, all-affiliate total = sum, registered => no cost base/gain, rejection iff impossible (model E), correct prefix before an error. Visibility of the message in every output mode is outside contracts and only watched by CLI witnesses.',
+     level_note=BK_NOTE + ' D13 (rounded split factor) is invisible to model E and guarded by its witness only.',
+     not_covered=['message reaches the user in every output mode (witness replay only: D5)', 'rounded-factor acceptance (D13, witness only)',
+                  'application-level "error stays per security" (D15, witness; see C08)'],
+     witnesses=['D5', 'D13', 'D15'])
+
+prop('C15', units=['bk'], level='proof',
+     technique='Verus: split arm of delta_for_tx + per-affiliate split factors in both window scans (code contracts); lemma_step_scales / lemma_ratio_scale_invariant (a step commutes with restating quantities in another split period)',
+     level_text='Deductive proof (Verus) of the step-level statement for all five row kinds and of the ratio invariance; the whole-history induction (fold commutation) is not mechanised.',
+     level_note=BK_NOTE,
+     not_covered=['whole-history induction over the fold', 'rounded split factors (model E)', 'global-vs-per-affiliate split expansion (unit ord, added when ported)'],
+     witnesses=['D13'])
+
+prop('C16', units=['bk'], level='proof',
+     technique='Verus: AffiliatePortfolioSecurityStatuses::new view postcondition + lemma_opening_equiv (opening status == state after an opening Buy) + ledger fold from init_stv',
+     level_text='Deductive proof (Verus) that the ledger started from an opening status equals the ledger after the corresponding Default-affiliate purchase (state equality, then the same fold).',
+     level_note=BK_NOTE,
+     not_covered=['parse_initial_status string splitting / rejection before processing (cmd.rs)', 'call site in the async I/O driver (witness D11)'],
+     witnesses=['D11'])
